@@ -1,6 +1,7 @@
 #!/usr/bin/env python3
 """tools/dump.py <fn-key-substring> [cfg] — readable MIR of matching bodies (development aid)"""
 import sys, os
+os.environ.setdefault("DESFACTS_CACHE_MAX", "900")
 sys.path.insert(0, os.path.dirname(os.path.dirname(os.path.abspath(__file__))))
 from rules.engine.core import *
 from rules.engine.extract import get_facts
